@@ -396,7 +396,7 @@ def judge_grammar_case(text, exp_data, exp_mask, spans, status, got_data, got_ma
         lim = min(len(got_data), len(exp_data))
         while k < lim and got_data[k] == exp_data[k]:
             k += 1
-        item = "trailing"
+        item = "trailing" if spans else "fixed-text"
         for s, e, name in spans:
             if s <= k < e:
                 item = name
